@@ -55,6 +55,9 @@ def verify_A(mod, tier, seed=0):
     pid = mod.PID
     t0 = time.time()
     plan = mod.plan(tier)
+    only = [x for x in os.environ.get("VF_ONLY", "").split(",") if x]
+    if only:  # experiments only: restrict to some harness functions
+        plan = [it for it in plan if it["fn"] in only]
     modname = mod.__name__
     res = new_result(pid, tier, seed)
     jobs = []
@@ -72,6 +75,8 @@ def verify_A(mod, tier, seed=0):
     absorb_A(res, mod, jobs, results)
     # concrete smoke of the same harnesses in the real environment (model validation)
     smoke = list(mod.smoke(tier)) if hasattr(mod, "smoke") else []
+    if only:
+        smoke = [it for it in smoke if it[0] in only]
     if smoke and not res["violations"]:
         items = [{"module": modname, "fn": it[0], "call": {"args": list(it[1]), "kwargs": {}}, "ctx": {"part": it[2] if len(it) > 2 else 0, "nparts": it[3] if len(it) > 3 else 1, "tier": tier}} for it in smoke]
         out, err = batch_replay(items)
